@@ -663,7 +663,11 @@ class Function(ValueNode):
     @func.setter
     def func(self, function_handle):
         self._func = function_handle
+        _was_stale = self._stale
         self._stale = True
+        if not _was_stale and not self._frozen:
+            # nodes computed from the previous function are out of date
+            self.notify_parents()
 
     @ValueNode.value.setter
     def value(self, value):
